@@ -169,11 +169,17 @@ example : ∃ rs, scanAll "\ntype Empty { }".toList = .ok rs ∧ parse (toToks 0
 
 /-! ### defect witnesses (the model follows the real code; both are reproduced on the real scanner by the harness) -/
 
-/-- DEFECT (open): a NUL rune ends the input silently - `NextToken` returns EOF for `s.ch == 0` wherever it stands.
-Everything behind it is dropped without an error; format.File would write the file back without it. -/
+/-- DEFECT of the pinned code (repaired by fixes/C20-scanner-nul-rune.patch): `NextToken` returns EOF for `s.ch == 0`
+wherever the NUL rune stands, so everything behind it is dropped WITHOUT an error (parse ok, format ok; format.File
+writes the file back without it). The pinned function ends the token stream; the repaired one (the model) returns an
+ILLEGAL token, on which the parser reports an error. -/
 theorem nul_truncates_witness :
-    scanAll "type A {}\x00 service s { @handler h get /a }".toList
-      = .ok [⟨.tok .IDENT, "type".toList, 1⟩, ⟨.tok .IDENT, "A".toList, 1⟩, ⟨.tok .LBRACE, ['{'], 1⟩, ⟨.tok .RBRACE, ['}'], 1⟩] := by
+    nextPinned "\x00 service s { @handler h get /a }".toList = .eof ∧
+    next "\x00 service s { @handler h get /a }".toList
+      = .tok (.tok .ILLEGAL) [Char.ofNat 0] " service s { @handler h get /a }".toList ∧
+    scanAll "type A {}\x00 x".toList
+      = .ok [⟨.tok .IDENT, "type".toList, 1⟩, ⟨.tok .IDENT, "A".toList, 1⟩, ⟨.tok .LBRACE, ['{'], 1⟩, ⟨.tok .RBRACE, ['}'], 1⟩,
+             ⟨.tok .ILLEGAL, [Char.ofNat 0], 1⟩, ⟨.tok .IDENT, ['x'], 1⟩] := by
   decide
 
 /-- QUIRK: `scanAt` returns ILLEGAL for an `@` that is the last rune WITHOUT reading it: `NextToken` returns the same
